@@ -453,3 +453,138 @@ def inject_fault(rng, forms):
         if S.wf(out):          # (an arrow clause has exactly one expression, ...)
             return pre + out, kind
     return pre + forms + [fault], kind
+
+
+# ---- C03: histories over a pool of shared bindings and vectors ------------------------------
+def store_history(rng, nsteps):
+    forms = [
+        define("make-counter", lam([], [lam([], [set_("n", app("+", var("n"), lit(1))), var("n")])], defs=[("n", lit(0))])),
+        define("make-acc", lam(["total"], [lam(["k"], [set_("total", app("+", var("total"), var("k"))), var("total")])])),
+        define("make-shared", lam([], [app("cons", lam([], [set_("n", app("+", var("n"), lit(1))), var("n")]), lam([], [var("n")]))], defs=[("n", lit(0))])),
+        define("g", lit(0)),
+        define("bump-g", lam([], [set_("g", app("+", var("g"), lit(1))), var("g")])),
+        define("shadow-g", lam(["g"], [set_("g", app("+", var("g"), lit(100))), var("g")])),
+        define("set-first!", lam(["vec", "val"], [app("vector-set!", var("vec"), lit(0), var("val")), var("vec")])),
+        define("identity", lam(["x"], [var("x")])),
+    ]
+    counters, accs, shared, vecs, lists, boxes, caps = [], [], [], [], [], [], []
+    lens = {}
+
+    def vec_expr():
+        """an expression denoting one of the existing vectors, through some alias path"""
+        choices = [("var", v) for v in vecs]
+        choices += [("list", l) for l in lists] + [("box", b) for b in boxes]
+        kind, x = rng.choice(choices)
+        if kind == "var":
+            e, n = var(x), lens[x]
+            if rng.random() < 0.2:
+                e = app("identity", e)
+            return e, n
+        if kind == "list":
+            j = rng.randrange(len(lens[x]))
+            e = var(x)
+            for _ in range(j):
+                e = app("cdr", e)
+            return app("car", e), lens[x][j]
+        j = rng.randrange(len(lens[x]))
+        return app("vector-ref", var(x), lit(j)), lens[x][j]
+
+    for step in range(nsteps):
+        ops = ["newcounter", "newacc", "newshared", "newvec", "global"]
+        if counters or accs: ops += ["call", "call", "call2"]
+        if shared: ops += ["shared", "shared"]
+        if vecs: ops += ["alias", "vset", "vset", "vset", "container", "probe", "probe", "capture", "vref", "passset", "literalset"]
+        if caps: ops += ["capset", "capset"]
+        op = rng.choice(ops)
+        if op == "newcounter":
+            n = "c%d" % rng.randint(1, 5)
+            forms.append(define(n, app("make-counter")))
+            if n not in counters: counters.append(n)
+            if n in accs: accs.remove(n)
+        elif op == "newacc":
+            n = "a%d" % rng.randint(1, 3)
+            forms.append(define(n, app("make-acc", lit(rng.randint(0, 9)))))
+            if n not in accs: accs.append(n)
+        elif op == "newshared":
+            n = "s%d" % rng.randint(1, 2)
+            forms.append(define(n, app("make-shared")))
+            if n not in shared: shared.append(n)
+        elif op == "call":
+            if counters and (not accs or rng.random() < 0.6):
+                e = app(rng.choice(counters))
+            else:
+                e = app(rng.choice(accs), lit(rng.randint(1, 5)))
+            wrap = rng.choice(["plain", "plus", "list", "if", "begin"])
+            if wrap == "plus": e = app("+", e, lit(rng.randint(1, 9)))
+            elif wrap == "list": e = app("list", e, lit(0))
+            elif wrap == "if": e = if_(app("<", e, lit(3)), quote(vsym("small")), quote(vsym("big")))
+            elif wrap == "begin": e = begin(e, e, e) if False else letstar([("t1", e)], [app("list", var("t1"), var("t1"))])
+            forms.append(e)
+        elif op == "call2":
+            pool = counters + accs
+            x, y = rng.choice(pool), rng.choice(pool)
+            cx = app(x) if x in counters else app(x, lit(2))
+            cy = app(y) if y in counters else app(y, lit(3))
+            forms.append(letstar([("t1", cx), ("t2", cy), ("t3", cx)], [app("list", var("t1"), var("t2"), var("t3"))]))
+        elif op == "shared":
+            s = rng.choice(shared)
+            forms.append(rng.choice([app(app("car", var(s))), app(app("cdr", var(s))),
+                                     letstar([("t1", app(app("car", var(s)))), ("t2", app(app("cdr", var(s))))], [app("=", var("t1"), var("t2"))])]))
+        elif op == "global":
+            forms.append(rng.choice([app("bump-g"), app("shadow-g", lit(rng.randint(0, 5))), var("g"),
+                                     letstar([("t1", app("shadow-g", lit(1))), ("t2", app("bump-g"))], [app("list", var("t1"), var("t2"), var("g"))])]))
+        elif op == "newvec":
+            n = "v%d" % rng.randint(1, 4)
+            k = rng.randint(1, 3)
+            how = rng.choice(["vector", "make-vector", "literal"])
+            if how == "vector":
+                forms.append(define(n, app("vector", *[lit(rng.randint(0, 9)) for _ in range(k)])))
+            elif how == "make-vector":
+                forms.append(define(n, app("make-vector", lit(k), lit(rng.randint(0, 9)))))
+            else:
+                forms.append(define(n, quote(vlit([vint(rng.randint(0, 9)) for _ in range(k)]))))
+            if n not in vecs: vecs.append(n)
+            lens[n] = k
+        elif op == "alias":
+            n = "v%d" % rng.randint(1, 4)
+            e, k = vec_expr()
+            forms.append(define(n, e))
+            if n not in vecs: vecs.append(n)
+            lens[n] = k
+        elif op == "vset":
+            e, k = vec_expr()
+            i = rng.randrange(k) if rng.random() < 0.93 else k
+            forms.append(app("vector-set!", e, lit(i), lit(rng.randint(10, 99))))
+        elif op == "passset":
+            e, k = vec_expr()
+            forms.append(app("vector-ref", app("set-first!", e, lit(rng.randint(10, 99))), lit(0)))
+        elif op == "literalset":
+            forms.append(app("vector-set!", quote(vlit([vint(1), vint(2)])), lit(0), lit(5)))
+        elif op == "vref":
+            e, k = vec_expr()
+            forms.append(app("vector-ref", e, lit(rng.randrange(k) if rng.random() < 0.9 else k)))
+        elif op == "container":
+            if rng.random() < 0.5:
+                n = "l%d" % rng.randint(1, 2)
+                items = [vec_expr() for _ in range(rng.randint(1, 3))]
+                forms.append(define(n, app("list", *[e for e, _ in items])))
+                if n not in lists: lists.append(n)
+                if n in boxes: boxes.remove(n)
+            else:
+                n = "u%d" % rng.randint(1, 2)
+                items = [vec_expr() for _ in range(rng.randint(1, 3))]
+                forms.append(define(n, app("vector", *[e for e, _ in items])))
+                if n not in boxes: boxes.append(n)
+                if n in lists: lists.remove(n)
+            lens[n] = [k for _, k in items]
+        elif op == "capture":
+            n = "k%d" % rng.randint(1, 2)
+            e, k = vec_expr()
+            forms.append(define(n, app(lam(["held"], [lam(["val"], [app("vector-set!", var("held"), lit(0), var("val")), var("held")])]), e)))
+            if n not in caps: caps.append(n)
+        elif op == "capset":
+            forms.append(app(rng.choice(caps), lit(rng.randint(10, 99))))
+        elif op == "probe":
+            forms.append(app("list", *[var(v) for v in vecs]))
+    forms.append(app("list", *[var(v) for v in vecs]))
+    return forms
